@@ -5,7 +5,7 @@
 //   mo   <seed> <L|-1 default> <append 0/1> <nsub> <nwrites> <maxlen> <flags>
 //        flags: 1 prefix given with trailing '/', 2 pre-existing files, 4 some writes are
 //        issued from inside a handler (typed arguments and stream manipulators are always among the writes), 8 second generation on the same prefix (same modes),
-//        16 the prefix directory lies below directories that do not exist yet
+//        16 the prefix directory lies below directories that do not exist yet, 32 only flat subpaths (files directly in the prefix)
 //   day  <seed> <L> <nwrites> <ts,ts,...>      daily_output, timestamps steered by the check
 //   ser  <kind> <seed> <nitems> <flags>
 //        kind: map multimap set multiset bag cset mapcount bagd (bag<double>) bagpd (bag<pair<int,double>>) mapd (map<string,double>)
@@ -83,11 +83,11 @@ static std::string gen_line(hc::rng& g, long L, long maxlen) {
 }
 
 // subpaths: files f<i> below random chains of directories d<j> (a file name never equals a directory name)
-static std::vector<std::string> gen_subpaths(hc::rng& g, long n) {
+static std::vector<std::string> gen_subpaths(hc::rng& g, long n, bool flat = false) {
   std::vector<std::string> v;
   for (long i = 0; i < n; ++i) {
     std::string p;
-    size_t depth = g.below(4);
+    size_t depth = flat ? 0 : g.below(4);
     for (size_t k = 0; k < depth; ++k) p += "d" + std::to_string(g.below(3)) + "/";
     p += "f" + std::to_string(i) + (g.below(3) == 0 ? ".txt" : "");
     v.push_back(p);
@@ -115,7 +115,7 @@ static int run_mo(ygm::comm& world, int argc, char** argv) {
   hc::rng shared(seed);
   std::string root = tmpdir() + "/mo" + ((flags & 16) ? "/deep/er" : "");
   std::string prefix = root + ((flags & 1) ? "/" : "");
-  auto subs = gen_subpaths(shared, nsub);
+  auto subs = gen_subpaths(shared, nsub, flags & 32);
   if (flags & 2) {   // pre-existing content: some of the subpaths, plus one file nobody writes to
     std::vector<std::pair<std::string, std::string>> olds;
     for (size_t i = 0; i < subs.size(); ++i)
